@@ -236,7 +236,8 @@ def add_inline_directives(rng, stmts, prob=0.2):
 
 def gen_program(rng, n=None, kinds=None):
     kinds = kinds or ALL_KINDS
-    n = n or rng.randint(1, 8)
+    # mostly short programs; now and then a long one (line numbers with more digits, many parts, long buffers)
+    n = n or (rng.randint(9, 45) if rng.random() < 0.03 else rng.randint(1, 8))
     return [Stmt(rng.choice(kinds), 10 + i) for i in range(n)]
 
 
